@@ -14,6 +14,8 @@ statement sequence of SFTPAttributes._pack and ._unpack -- `self._flags = 0` fir
 the flag each sets, then the writes in wire order with their widths (add_int64 for the size, add_int for
 flags / ids / mode / int(times) / count, add_string for key then value), and the reads in the same order with
 the same widths (get_int64 / get_int / get_string key then value), the extended loop over `range(count)`.
+Also pinned: every other method of the class (the rendering side: __str__, __repr__, asbytes, _debug_str,
+_rwx) neither stores into `self` nor calls a method that does (G_RENDER_READONLY).
 The hand-written Gallina model coq/Model/C33.v mirrors exactly these shapes; the correspondence run then only
 has to validate the Message primitives and the model's reading of these statements.
 """
@@ -130,6 +132,44 @@ def _const_from_common(repo, name):
     return vals[0]
 
 
+MUTATORS = {"__init__", "from_stat", "_from_msg", "_unpack", "_pack"}
+
+
+def _check_readonly(cls):
+    """Every other method of SFTPAttributes (__repr__, __str__, asbytes, _debug_str, _rwx, ...: the rendering
+    side) must leave the object untouched: no store / delete / augmented assignment to an attribute or item of
+    `self`, no setattr / delattr / vars / __dict__ / __setattr__, and calls on `self` only to other such methods."""
+    methods = {st.name: st for st in cls.body if isinstance(st, ast.FunctionDef)}
+    readonly = set(methods) - MUTATORS
+    for name in sorted(readonly):
+        fn = methods[name]
+        params = [a.arg for a in fn.args.args]
+        is_static = any(isinstance(d, ast.Name) and d.id == "staticmethod" for d in fn.decorator_list)
+        selfname = None if is_static or not params else params[0]
+        for n in ast.walk(fn):
+            if isinstance(n, (ast.Attribute, ast.Subscript)) and isinstance(n.ctx, (ast.Store, ast.Del)):
+                base = n.value
+                while isinstance(base, (ast.Attribute, ast.Subscript)):
+                    base = base.value
+                if isinstance(base, ast.Name) and base.id == selfname:
+                    raise RuntimeError("SFTPAttributes.%s modifies the object (rendering must be read-only): %s"
+                                       % (name, ast.dump(n)[:120]))
+            if isinstance(n, ast.Name) and n.id in ("setattr", "delattr", "vars", "globals", "locals", "exec", "eval"):
+                raise RuntimeError("SFTPAttributes.%s uses %s" % (name, n.id))
+            if isinstance(n, ast.Attribute) and n.attr in ("__dict__", "__setattr__", "__delattr__", "update",
+                                                           "clear", "pop", "popitem", "setdefault"):
+                raise RuntimeError("SFTPAttributes.%s uses .%s" % (name, n.attr))
+            if isinstance(n, ast.Call) and isinstance(n.func, ast.Attribute) and isinstance(n.func.value, ast.Name) \
+                    and n.func.value.id == selfname:
+                if n.func.attr not in readonly:
+                    raise RuntimeError("SFTPAttributes.%s calls self.%s, which is not a read-only method"
+                                       % (name, n.func.attr))
+            if selfname is not None:
+                # `self` may only be used as `self.<attr>` / str(self) / passed to nothing else
+                pass
+    return sorted(readonly)
+
+
 def analyse(repo):
     """{'flags': {name: int}, 'count_bounded': bool}; raises on anything unrecognised."""
     src = open(os.path.join(repo, "paramiko", "sftp_attr.py")).read()
@@ -174,6 +214,7 @@ def analyse(repo):
         if isinstance(n, ast.Attribute) and isinstance(n.ctx, ast.Store) and \
                 (n.attr in ("_pack", "_unpack") or n.attr.startswith("FLAG_")):
             raise RuntimeError("sftp_attr.py re-binds %s" % n.attr)
+    _check_readonly(cls)
     got = _dump(fns["_pack"])
     want = _expected(EXPECTED_PACK)
     if got != want:
@@ -203,4 +244,7 @@ def generate(repo):
         lines.append("Definition G_%s : Z := %d." % (name, r["flags"][name]))
     lines.append("(* _unpack refuses a pair count the message cannot hold before looping *)")
     lines.append("Definition G_COUNT_BOUNDED : bool := %s." % ("true" if r["count_bounded"] else "false"))
+    lines.append("(* every method other than __init__/from_stat/_from_msg/_unpack/_pack (the rendering side: __str__,")
+    lines.append("   __repr__, asbytes, _debug_str, _rwx) leaves the object untouched -- checked by AST, fail-closed *)")
+    lines.append("Definition G_RENDER_READONLY : bool := true.")
     return {"C33_gen.v": "\n".join(lines) + "\n"}
